@@ -5,9 +5,10 @@ C07 - DestinationRule visibility: exact model of `push_context.go` `setDestinati
 `destinationRule`, `getExportedDestinationRuleFromNamespace`, of `destination_rule.go`
 `mergeDestinationRule` (the bookkeeping: which rules are consolidated, with which exportTo), and of
 `config.go` `MostSpecificHostMatch`.  Traffic-policy/subset merging inside a consolidated rule is
-not modelled (only `from`, `exportTo`, and whether the first rule has a workload selector).
-All workload selectors are taken to be equal (`selectorsMatch` is true whenever both rules have
-one); the harness generates exactly that.
+not modelled; the subset names of a consolidated rule are (they become subset clusters), as are
+`from`, `exportTo`, the namespace and the workload selector of the first rule, and the per-proxy choice
+`SidecarScope.DestinationRule` (first consolidated rule of the proxy's namespace whose selector
+matches the proxy labels, else the last selector-less one).
 -/
 namespace IstioModel.C07
 
@@ -18,6 +19,8 @@ structure DR where
   host : String
   exportTo : List String
   selector : Bool
+  selLabels : List (String × String) := []   -- workloadSelector.matchLabels (when `selector`)
+  subsets : List String := []                -- subset names
 deriving Repr, Inhabited
 
 /-- `ConsolidatedDestRule` -/
@@ -26,6 +29,8 @@ structure CDR where
   frm : List (String × String)   -- (namespace, name) of the merged rules, `from`
   ns : String                    -- namespace of the first rule
   sel : Bool                     -- the first rule has a workloadSelector
+  selLabels : List (String × String) := []
+  subsets : List String := []    -- subset names of the merged rule
 deriving Repr, Inhabited
 
 abbrev Pool := List (String × List CDR)   -- host -> consolidated rules (specific and wildcard hosts)
@@ -39,6 +44,16 @@ def sortDRs (l : List DR) : List DR :=
 
 def setEq (a b : List String) : Bool := a.all (b.contains ·) && b.all (a.contains ·)
 def setSuperset (a b : List String) : Bool := b.all (a.contains ·)
+
+/-- `labels.Instance.Equals` -/
+def labelsEq (a b : List (String × String)) : Bool :=
+  a.all (fun kv => b.any fun kv' => kv'.1 == kv.1 && kv'.2 == kv.2) &&
+  b.all (fun kv => a.any fun kv' => kv'.1 == kv.1 && kv'.2 == kv.2)
+
+/-- the rule `d` merged into the consolidated rule `mdr`: `from` grows, unknown subset names are added -/
+def mergeInto (mdr : CDR) (d : DR) : CDR :=
+  { mdr with frm := mdr.frm ++ [(d.ns, d.name)],
+             subsets := mdr.subsets ++ d.subsets.filter fun x => !mdr.subsets.contains x }
 
 /-- the loop of `mergeDestinationRule` over the consolidated rules of one host;
     state = (appendSeparately, rules rewritten so far). -/
@@ -57,12 +72,16 @@ def mergeLoop (enhanced : Bool) (d : DR) (ex : List String) :
     else
       let bothWithout := !d.selector && !mdr.sel
       let bothWith := mdr.sel && d.selector
-      -- selectorsMatch is true when both have one (all selectors equal)
-      let app2 := if bothWithout || bothWith then false else app1
-      mergeLoop enhanced d ex rest app2 (done ++ [{ mdr with frm := mdr.frm ++ [(d.ns, d.name)] }])
+      let selMatch := labelsEq mdr.selLabels d.selLabels
+      -- both with a selector, selectors differ: not merged, appended separately
+      if bothWith && !selMatch then mergeLoop enhanced d ex rest true (done ++ [mdr])
+      else
+        let app2 := if bothWithout || (bothWith && selMatch) then false else app1
+        mergeLoop enhanced d ex rest app2 (done ++ [mergeInto mdr d])
 
 def newCDR (d : DR) (ex : List String) : CDR :=
-  { exportTo := ex, frm := [(d.ns, d.name)], ns := d.ns, sel := d.selector }
+  { exportTo := ex, frm := [(d.ns, d.name)], ns := d.ns, sel := d.selector, selLabels := d.selLabels,
+    subsets := d.subsets }
 
 /-- `PushContext.mergeDestinationRule` -/
 def mergeDR (enhanced : Bool) (p : Pool) (d : DR) (ex : List String) : Pool :=
@@ -167,5 +186,14 @@ def selectDestinationRules (m : Mesh) (idx : DRIndex) (cfgNs : String) (services
   services.foldl (fun acc s =>
     let l := destinationRule m idx cfgNs s
     if l.isEmpty then acc else ainsert s.hostname l acc) []
+
+/-- `SidecarScope.DestinationRule(outbound, proxy, host)`: the first consolidated rule of the proxy's
+    namespace whose workloadSelector matches the proxy labels, else the last selector-less one. -/
+def pickDR (cfgNs : String) (lbl : List (String × String)) : List CDR → Option CDR → Option CDR
+  | [], catchAll => catchAll
+  | c :: t, catchAll =>
+    let catchAll' := if !c.sel then some c else catchAll
+    if cfgNs == c.ns && c.sel && labelsSubset c.selLabels lbl then some c
+    else pickDR cfgNs lbl t catchAll'
 
 end IstioModel.C07
